@@ -172,7 +172,7 @@ where
                 fin!(constraints::cumulative_with_options(vs(st), du, rq, *cap as i32, cumul_opts(*o)))
             }
         }
-        Con::BoolLe(..) | Con::BoolEq(..) => unreachable!(),
+        Con::BoolLe(..) | Con::BoolEq(..) | Con::PClause(..) | Con::LitDef(..) => unreachable!(),
     }
 }
 
@@ -181,6 +181,14 @@ where
 pub fn post_con(s: &mut Solver, xs: &[X], c: &(Con, Reif), tag: Option<u32>) -> Result<(), ConstraintOperationError> {
     let lit = |l: &Lit| mk_lit(l, xs);
     match &c.0 {
+        Con::LitDef(..) => return Ok(()),
+        Con::PClause(ps) => {
+            let preds: Vec<Predicate> = ps.iter().map(|p| from_mpred(p, xs)).collect();
+            return match &c.1 {
+                Reif::Plain => s.add_clause(preds),
+                _ => panic!("harness: predicate clauses are posted plainly"),
+            };
+        }
         Con::BoolLe(w, l, r) => {
             let w: Vec<i32> = w.iter().map(|x| *x as i32).collect();
             let l: Vec<Literal> = l.iter().map(lit).collect();
@@ -231,11 +239,28 @@ pub struct Built {
 }
 
 pub fn new_vars(s: &mut Solver, m: &Model, from: usize, named: bool) -> Vec<X> {
-    m.vars[from..]
-        .iter()
-        .enumerate()
-        .map(|(k, v)| {
-            let i = from + k;
+    let mut made: Vec<X> = vec![];
+    for (k, v) in m.vars[from..].iter().enumerate() {
+        let i = from + k;
+        // a literal defined by a predicate over an earlier variable
+        let def = m.cons.iter().find_map(|c| match &c.0 {
+            Con::LitDef(b, p) if *b == i => Some(*p),
+            _ => None,
+        });
+        if let Some(p) = def {
+            assert!(p.var >= from && p.var < i, "harness: literal definitions refer to an earlier variable of the same batch");
+            let d = made[p.var - from].domain();
+            let val = p.v as i32;
+            let pred = match p.k {
+                PK::Ge => predicate!(d >= val),
+                PK::Le => predicate!(d <= val),
+                PK::Eq => predicate!(d == val),
+                PK::Ne => predicate!(d != val),
+            };
+            made.push(X::B(s.new_literal_for_predicate(pred)));
+            continue;
+        }
+        made.push({
             match (v.kind, named) {
                 (VarKind::Bool, false) => X::B(s.new_literal()),
                 (VarKind::Bool, true) => X::B(s.new_named_literal(format!("x{i}"))),
@@ -246,8 +271,9 @@ pub fn new_vars(s: &mut Solver, m: &Model, from: usize, named: bool) -> Vec<X> {
                 (VarKind::Interval, false) => X::I(s.new_bounded_integer(v.lo() as i32, v.hi() as i32)),
                 (VarKind::Interval, true) => X::I(s.new_named_bounded_integer(v.lo() as i32, v.hi() as i32, format!("x{i}"))),
             }
-        })
-        .collect()
+        });
+    }
+    made
 }
 
 pub fn build(m: &Model, opts: SolverOptions, upto: usize, tagged: bool, named: bool) -> Built {
